@@ -173,7 +173,7 @@ func denseCut(total, destEnd int) int {
 //
 //verif:props C04 C03
 //verif:witness cut-rejected
-//verif:fanout 400
+//verif:fanout 1000
 func H_C04_Truncation() {
 	which := nd.IntRange(0, 4)
 	covShape("case", which)
